@@ -138,6 +138,15 @@ def c18_legacy_profile_via_parse_message():
     return (a, b), a is True and b is not True
 
 
+@case
+def c10_reparenting_keeps_old_parent():
+    s1 = Segment('PID'); s2 = Segment('PID')
+    f = Field('PID_1'); f.value = '1'
+    s1.add(f)
+    s2.add(f)
+    return (f in s1.children, f in s2.children, f.parent is s2), (f in s1.children) and (f in s2.children)
+
+
 if __name__ == '__main__':
     names = sys.argv[1:] or sorted(CASES)
     for n in names:
